@@ -2440,6 +2440,52 @@ theorem boundC04SyncGo_run {p : Params} (hq : NoQuirks p) (hsm : SmallSketch p) 
     | _ => exact Nat.le_trans this hn
   | case6 => intros; rfl
 
+/-! ### the invariant does not record the order of the queue
+
+Every clause of `CInv` speaks about *membership* in the logical queue only: an entry awaits
+"some queued upsert of this very value entry", a node "some queued remove of its info".
+Nothing says that the last upsert of an info carries the current value.  Hence any
+reordering of the write queue (in particular the inversion of two upserts of one key that two
+threads can produce) leaves the invariant intact, and everything proved from it applies to
+the reordered state. -/
+
+theorem CInv.of_mem {p : Params} {s : SState} {Q Q' : List WOp} (h : CInv p s Q)
+    (hm : ∀ op, op ∈ Q' ↔ op ∈ Q) : CInv p s Q' where
+  mapKey := h.mapKey
+  mapId := h.mapId
+  idInj := h.idInj
+  slotInj := h.slotInj
+  nodeKey := h.nodeKey
+  nodeCur n hn := by
+    rcases h.nodeCur n hn with h1 | ⟨k, ve, hq, hi⟩
+    · exact Or.inl h1
+    · exact Or.inr ⟨k, ve, (hm _).mpr hq, hi⟩
+  cur k ve hk := by
+    rcases h.cur k ve hk with ⟨hh, o, w, hq⟩ | h1
+    · exact Or.inl ⟨hh, o, w, (hm _).mpr hq⟩
+    · exact Or.inr h1
+  remDead k ve hq := h.remDead k ve ((hm _).mp hq)
+  remBound k ve hq := h.remBound k ve ((hm _).mp hq)
+  upKey k hh ve o w hq := h.upKey k hh ve o w ((hm _).mp hq)
+  upSlot k hh ve o w hq := h.upSlot k hh ve o w ((hm _).mp hq)
+  probSlot := h.probSlot
+  woSlot := h.woSlot
+  dirtyQ k ve hk hd := by
+    obtain ⟨k', hh, v, o, w, hq, hi⟩ := h.dirtyQ k ve hk hd
+    exact ⟨k', hh, v, o, w, (hm _).mpr hq, hi⟩
+  wsum := h.wsum
+
+/-- A reachable state whose write queue has been permuted arbitrarily still satisfies the
+invariant of the reachable states. -/
+theorem TInv.perm_writeQ {p : Params} {s : SState} (h : TInv p s []) {Q' : List WOp}
+    (hp : Q'.Perm s.writeQ) : TInv p { s with writeQ := Q' } [] := by
+  refine ⟨h.top.of_eq rfl rfl rfl rfl rfl rfl rfl rfl rfl, ⟨h.q.running, ?_, h.q.readQ⟩, ?_⟩
+  · show Q'.length ≤ _
+    rw [hp.length_eq]; exact h.q.writeQ
+  · have h1 : CInv p { s with cec := s.ec, cws := s.ws } (Q' ++ []) :=
+      h.cinv.of_mem (fun op => by rw [List.append_nil]; exact hp.mem_iff)
+    exact h1.same (same_of_eq rfl rfl rfl rfl rfl rfl)
+
 end Counters
 end Sync
 end MiniMoka
